@@ -871,7 +871,7 @@ func incr(n *Nodis, conn *redis.Conn, cmd redis.Command) {
 		key := cmd.Args[0]
 		v, err := n.Incr(key)
 		if err != nil {
-			conn.WriteBulkNull()
+			conn.WriteError("ERR value is not an integer or out of range")
 			return
 		}
 		conn.WriteInt64(v)
@@ -892,7 +892,7 @@ func incrBy(n *Nodis, conn *redis.Conn, cmd redis.Command) {
 	execCommand(conn, func() {
 		v, err := n.IncrBy(key, value)
 		if err != nil {
-			conn.WriteBulkNull()
+			conn.WriteError("ERR value is not an integer or out of range")
 			return
 		}
 		conn.WriteInt64(v)
@@ -908,7 +908,7 @@ func decr(n *Nodis, conn *redis.Conn, cmd redis.Command) {
 		key := cmd.Args[0]
 		v, err := n.Decr(key)
 		if err != nil {
-			conn.WriteBulkNull()
+			conn.WriteError("ERR value is not an integer or out of range")
 			return
 		}
 		conn.WriteInt64(v)
@@ -929,7 +929,7 @@ func decrBy(n *Nodis, conn *redis.Conn, cmd redis.Command) {
 	execCommand(conn, func() {
 		v, err := n.DecrBy(key, value)
 		if err != nil {
-			conn.WriteBulkNull()
+			conn.WriteError("ERR value is not an integer or out of range")
 			return
 		}
 		conn.WriteInt64(v)
@@ -950,7 +950,7 @@ func incrByFloat(n *Nodis, conn *redis.Conn, cmd redis.Command) {
 	execCommand(conn, func() {
 		v, err := n.IncrByFloat(key, value)
 		if err != nil {
-			conn.WriteBulkNull()
+			conn.WriteError("ERR value is not a valid float")
 			return
 		}
 		conn.WriteBulk(strconv.FormatFloat(v, 'f', -1, 64))
